@@ -2086,6 +2086,8 @@ impl ContinuityStore {
             {
                 Ok(Some(tail)) => {
                     scanned_sidecar = true;
+                    // Each pass re-reads a wider tail that contains the previous one.
+                    decisions.clear();
                     for event in tail.events.iter().rev() {
                         let EventKind::ContinuityContextSelectionDecided {
                             run_session_id,
